@@ -40,6 +40,30 @@ for a in u.QUANTITIES:
             except Exception as e:
                 probe["%s %s %s" % (a.__name__, op, b.__name__)] = ["EXC", type(e).__name__, str(e)[:60]]
 out["probe"] = probe
+alias_viol = []
+alias_checks = 0
+for a in u.QUANTITIES:
+    for b in u.QUANTITIES[::5]:
+        for mk_left in (lambda: a(3.0), lambda: a(3.0).asSI() if hasattr(a(3.0), "asSI") else a(3.0)):
+            try:
+                x, y = mk_left(), b(2.0)
+                sx, sy, vx, vy = list(x.sisig()), list(y.sisig()), float(x), float(y)
+                for op, f, sign in (("*", lambda p, q_: p * q_, 1), ("/", lambda p, q_: p / q_, -1)):
+                    alias_checks += 1
+                    r1 = f(x, y)
+                    s1 = list(r1.sisig())
+                    r2 = f(x, b(5.0))
+                    want = [i + sign * j for i, j in zip(sx, sy)]
+                    if s1 != want or list(r2.sisig()) != want or list(r1.sisig()) != want:
+                        alias_viol.append("%s %s %s with a re-used left operand (%s): signatures %s then %s, first result now %s, expected %s"
+                                          % (a.__name__, op, b.__name__, type(x).__name__, s1, list(r2.sisig()), list(r1.sisig()), want))
+                    if list(x.sisig()) != sx or list(y.sisig()) != sy or float(x) != vx or float(y) != vy:
+                        alias_viol.append("%s %s %s modified an operand (%s left operand)" % (a.__name__, op, b.__name__, type(x).__name__))
+            except Exception as e:
+                alias_viol.append("%s op %s: %s: %s" % (a.__name__, b.__name__, type(e).__name__, e))
+out["alias_checks"] = alias_checks
+out["alias_violations"] = alias_viol[:20]
+out["alias_violation_count"] = len(alias_viol)
 # bounded semantic sweep of construction / conversion / same-type arithmetic for every class and every unit
 viol = []
 nchecks = 0
@@ -63,7 +87,10 @@ for q in u.QUANTITIES:
                 if y.si != x.si or y.unit != other or type(y) is not q:
                     viol.append("%s(%r,%r).as_unit(%r): si %r unit %r" % (q.__name__, v, un, other, y.si, y.unit))
                 z = q(2.0, other)
-                for name, r, exp in (("+", x + z, x.si + z.si), ("-", x - z, x.si - z.si), ("neg", -x, -x.si), ("abs", abs(x), abs(x.si))):
+                z2 = q(20.0, un)        # same unit as x: the result must still be the sum / difference of the SI values
+                for name, r, exp in (("+", x + z, x.si + z.si), ("-", x - z, x.si - z.si), ("neg", -x, -x.si), ("abs", abs(x), abs(x.si)),
+                                     ("+same-unit", x + z2, x.si + z2.si), ("-same-unit", x - z2, x.si - z2.si),
+                                     ("+same-unit", q(v + 10, un) + z2, q(v + 10, un).si + z2.si), ("-same-unit", q(1, un) - q(3, un), q(1, un).si - q(3, un).si)):
                     if r.si != exp or r.unit != un or type(r) is not q:
                         viol.append("%s(%r,%r) %s %s(2.0,%r): si %r (exp %r) unit %r (exp %r)" % (q.__name__, v, un, name, q.__name__, other, r.si, exp, r.unit, un))
                 if (x == z) != (x.si == z.si) or (x < z) != (x.si < z.si) or (x >= z) != (x.si >= z.si) or (x != z) != (x.si != z.si):
@@ -304,6 +331,13 @@ def load(reg):
                     % (checked, unparsed), True, ""))
         return out
     reg.ground_obligation("compound units agree with their component units", C17, compound_units)
+
+    def operand_reuse(table):
+        d = dump_tables()
+        return [("BOUNDED: * and / leave their operands untouched and give the same signature when the left operand (a Quantity or "
+                 "its generic SI form) is used again (%d evaluations over all left classes x every 5th right class)" % d["alias_checks"],
+                 d["alias_violation_count"] == 0, "; ".join(d["alias_violations"][:3]))]
+    reg.ground_obligation("BOUNDED stand-in: operands of * and / are not modified, results do not alias", C16, operand_reuse)
 
     def si_roundtrip(table):
         d = dump_tables()
